@@ -75,6 +75,8 @@ pub uninterp spec fn own_party_id(s: &SingleSigner) -> Seq<char>;
 pub uninterp spec fn registration_sent(p: &RegistrationPublisher, e: Epoch, s: &Signer) -> bool;
 /// save_protocol_initializer(epoch, initializer) was called
 pub uninterp spec fn initializer_saved(s: &InitializerStore, e: Epoch, i: ProtocolInitializer) -> bool;
+/// the aggregator ACCEPTED a registration for this epoch carrying this verification key (used to order "register, THEN save")
+pub uninterp spec fn registration_accepted(e: Epoch, k: KeyBytes) -> bool;
 pub uninterp spec fn stakes_saved(s: &StakeStore, e: Epoch, d: StakeDistribution) -> bool;
 pub uninterp spec fn chain_stake_distribution(c: &ChainObserver) -> Option<StakeDistribution>;
 pub uninterp spec fn distribution_is_empty(d: &StakeDistribution) -> bool;
@@ -99,7 +101,12 @@ impl InitializerStore {
     #[verifier::external_body]
     pub fn get_protocol_initializer(&self, e: Epoch) -> (r: Result<Option<ProtocolInitializer>, StdError>) ensures r is Ok ==> r->Ok_0 == stored_initializer(self, e) { unimplemented!() }
     #[verifier::external_body]
-    pub fn save_protocol_initializer(&self, e: Epoch, i: ProtocolInitializer) -> (r: Result<Option<ProtocolInitializer>, StdError>) ensures r is Ok ==> initializer_saved(self, e, i) { unimplemented!() }
+    /// key material is kept only AFTER the aggregator accepted the registration of its verification key for that epoch (a refused
+    /// registration must be retried: keys found in the store make the runner skip the registration)
+    pub fn save_protocol_initializer(&self, e: Epoch, i: ProtocolInitializer) -> (r: Result<Option<ProtocolInitializer>, StdError>)
+        requires registration_accepted(e, initializer_key(&i))
+        ensures r is Ok ==> initializer_saved(self, e, i)
+    { unimplemented!() }
 }
 impl SingleSigner {
     #[verifier::external_body]
@@ -113,7 +120,9 @@ impl ChainObserver {
 }
 impl RegistrationPublisher {
     #[verifier::external_body]
-    pub fn register_signer(&self, e: Epoch, s: &Signer) -> (r: Result<(), StdError>) ensures r is Ok ==> registration_sent(self, e, s) { unimplemented!() }
+    pub fn register_signer(&self, e: Epoch, s: &Signer) -> (r: Result<(), StdError>)
+        ensures r is Ok ==> registration_sent(self, e, s) && registration_accepted(e, s.verification_key_for_concatenation)
+    { unimplemented!() }
 }
 /// the `match &self.config.operational_certificate_path { Some(path) => OpCert::from_file(..) .. }` block (file parsing)
 #[verifier::external_body]
